@@ -29,9 +29,9 @@ func HarnessC08_Errors() {
 	}
 	err := root
 	want := rootMsg
-	msgs := []string{"m0", "m1", "m2", "m3"}
+	msgs := [][]string{{"m0", "100%", "%s"}, {"m1", "a: b", "%d%%"}, {"m2", "", "%v"}, {"m3", "%", "x"}}
 	for i := 0; i < depth; i++ {
-		m := msgs[i]
+		m := msgs[i][vChoice(3)]
 		switch vChoice(4) {
 		case 0:
 			err = WithStack(err)
